@@ -247,6 +247,10 @@ func runC01(c *Ctx) {
 	c.clientCopyRule("R01.9", true)
 	c.rule("R01.10", "a request is refused before the handler runs only for an unknown method, an unsupported channel mode or bad params — never because of its id or the spelling of its name")
 	c.rejectionReasons("R01.10")
+	c.rule("R01.11", "the reply's result is decoded whenever it is present: no test of its bytes (\"is it null?\") decides that — null is a value, a raw-JSON result or a custom decoder gives it a meaning")
+	c.resultDecodedWhenPresent("R01.11")
+	c.rule("R01.12", "a reverse call runs the handler of the very client it was made for: the reverse client, its queue and its proxy are built per connection")
+	c.reverseClientFresh("R01.12")
 	c.rule("R01.6", "the context input and the error output of a signature are recognised by identity of the declared type with context.Context / error, never by Implements/AssignableTo/ConvertibleTo")
 	c.signatureClassification("R01.6")
 	if r.FnDisp == nil || r.FnCall == nil {
@@ -1032,5 +1036,62 @@ func (c *Ctx) configMapsOwned(rule string) {
 	}
 	if n == 0 {
 		c.und(rule, "configuration tables", "-", "no map-typed configuration field updated by an option was found")
+	}
+}
+
+// resultDecodedWhenPresent: R01.11. On the client the decode of the reply's result into the declared
+// type is conditional on the result being present (a nil / length test), the call having a value output,
+// and nothing else about the result: comparing its bytes with "null" (to skip decoding) makes a
+// json.RawMessage result come back as nil instead of null and never invokes a custom UnmarshalJSON
+// for null.
+func (c *Ctx) resultDecodedWhenPresent(rule string) {
+	r := c.R
+	if r.FnCall == nil || r.TCresp == nil {
+		c.und(rule, "client call function / client response type", "-", "not resolved")
+		return
+	}
+	resF := respFieldByTag(r.TCresp, "result")
+	if resF == nil {
+		c.und(rule, "result member of the client response", "-", "not found")
+		return
+	}
+	isRes := func(v ssa.Value) bool { return loadedField(v) == resF }
+	n := 0
+	for _, g := range c.region(r.FnCall) {
+		allInstrsRaw(g, func(in ssa.Instruction) {
+			ci, ok := in.(*ssa.Call)
+			if !ok || decodeTarget(ci) == nil || len(ci.Common().Args) == 0 {
+				return
+			}
+			if !c.dependsOn(ci.Common().Args[0], isRes, 0, map[ssa.Value]bool{}) {
+				return
+			}
+			n++
+			construct := fmt.Sprintf("%s: decoding of the reply's result", fname(g))
+			var odd ssa.Value
+			for _, cf := range expandConds(impliedCondsIP(in.Block(), 0)) {
+				v := cf.Cond
+				if !c.dependsOn(v, isRes, 0, map[ssa.Value]bool{}) {
+					continue
+				}
+				if bo, ok := v.(*ssa.BinOp); ok {
+					// result != nil, len(result) > 0
+					if isNilConst(bo.X) || isNilConst(bo.Y) {
+						continue
+					}
+					if _, isLen := lenOf(bo.X); isLen {
+						continue
+					}
+					if _, isLen := lenOf(bo.Y); isLen {
+						continue
+					}
+				}
+				odd = v
+			}
+			c.check(odd == nil, rule, construct, c.ipos(in), "conditional only on the result being present", "whether the result is decoded depends on a test of its bytes (e.g. it is skipped when they spell null): a raw-JSON result of null comes back as nil, and a result type whose decoder gives null a meaning never sees it — the caller does not get the JSON round-trip of what the handler returned")
+		})
+	}
+	if n == 0 {
+		c.und(rule, "decoding of the reply's result", "-", "not found in the client call path")
 	}
 }
